@@ -34,6 +34,3 @@ pub use worker::verif_set_worker_ordinal;
 pub(crate) use worker::GCWorkerShared;
 
 pub(crate) mod gc_work;
-
-#[cfg(feature = "mmtk_verif")]
-pub(crate) use worker::verif_set_worker_ordinal;
